@@ -324,7 +324,7 @@ Section Build.
                     | [] => BOk []
                     | f :: r =>
                         let type_name := mname ++ "." ++ fd_name f in
-                        let fpath := if fd_embed f then mname else path ++ "." ++ fd_name f in
+                        let fpath := if fd_embed f then path else path ++ "." ++ fd_name f in
                         bdo x <- build_view (view_of_field f) false type_name fpath (Some f);
                         bdo y <- go r;
                         BOk (x ++ y)%list
